@@ -570,6 +570,8 @@ class C16:
 
     @staticmethod
     def gen(rng, tier, i):
+        # (zero-filled payload is NOT generated here: the quantifier - 'damage sets as in C04' - excludes damage to
+        # regions whose described bytes are all zero, where 'absent' and 'present' cannot be told apart by hash)
         return gen_case(rng, tier, damaged=rng.random() > 0.15)
 
     @staticmethod
